@@ -6,6 +6,8 @@ from analysis.facts import norm_path
 from analysis.sym import sym, show_in, nosite, peel, core, walk, ret_values, args_of, guards_at, atoms_at, \
     variant_facts_at, cmp_facts_at, init_value, edge_guards, symbolizer, simplify, loop_source, defs_of, var_defs, agg_field
 from analysis.pat import match, Call, Cap, ANY, Pred, Const, has, chain_names
+from analysis.seq import seq_of, seq_of_var, ITEM
+from analysis.alts import value_alts
 from rules.common import closure_of, closures_in, body_for, BYTE, state_locals, local_defs, V, receiver_var
 
 T = 'tokenization::'
@@ -44,105 +46,89 @@ def r1(ctx):
     R.clear()
     R['tokens'] = _one(b, r'^std::vec::Vec<u32>$', 'id vector')
     R['groups'] = _one(b, r'^std::vec::Vec<tokenization::TokenGroup>$', 'group vector')
-    gw, tw = [], []
-    for t in b.terms('call'):
-        if not t.args or t.args[0].place is None:
-            continue
-        if not b.local_ty(t.args[0].place.local).startswith('&mut'):
-            continue
-        r = core(sym(b, t.args[0]))
-        if match(r, _var('groups')):
-            gw.append(t)
-        elif match(r, _var('tokens')):
-            tw.append(t)
-    if not gw or not tw:
-        raise AnchorMissing('writers of `groups` / `tokens` in ByteTokenizer::process_input')
-    reg = [(tt, n_) for blk in b.reachable for tt, n_ in variant_facts_at(b, blk)]
+    gs = seq_of_var(ctx.facts, b, R['groups'])
+    ts = seq_of_var(ctx.facts, b, R['tokens'])
+    if gs is None or ts is None:
+        raise AnchorMissing('construction of `groups` / `tokens` in ByteTokenizer::process_input')
+    item_of = lambda v: Pred(lambda u: core(u) == ('field', ('variant', ITEM, v), 0))
+    isfull1 = lambda t: match(core(t), _full(Const(1)))
 
-    def arm_of(blk):
-        for tt, names in variant_facts_at(b, blk):
-            if names in ({'Regular'}, {'Special'}):
-                return list(names)[0]
-        return None
+    def arms(s_):
+        """(input arm, group mode, other conditions) of a leaf segment; the `?` continuation of the id lookup is not a choice"""
+        arm, grp, other = None, None, []
+        for c, p in s_.conds:
+            if p and c[0] == 'is' and c[1] == ITEM and len(c[2]) == 1:
+                arm = c[2][0]
+            elif p and c[0] == 'is' and len(c[2]) == 1 and match(core(c[1]), ('field', ('field', ('arg', 1, ANY), 'config'), 'groups')):
+                grp = c[2][0]
+            elif p and c[0] == 'is' and c[2] == ('Continue',) and match(peel(c[1]), Call('Try>::branch', ANY)):
+                continue
+            else:
+                other.append(c)
+        return arm, grp, other
 
-    def grp_of(blk):
-        for tt, names in variant_facts_at(b, blk):
-            if names in ({'Bytes'}, {'CodePoints'}) and has(tt, ('field', ANY, 'groups')):
-                return list(names)[0]
-        return None
+    def where(s_):
+        return s_.term.span if s_.term is not None else None
+    csnew = lambda txt: Call('CharString::new', txt, ('field', ('field', ('arg', 1, ANY), 'config'), 'use_graphemes'))
+    # ---- groups
     seen = {}
-    for t in gw:
-        name = (t.callee_res() or '').rsplit('::', 1)[-1]
-        a = core(sym(b, t.args[1])) if len(t.args) > 1 else None
-        arm, grp = arm_of(t.bb), grp_of(t.bb)
-        kind = None
-        if name == 'push' and arm == 'Special' and match(a, _full(Const(1))):
-            kind = 'special'
-        elif name == 'extend' and arm == 'Regular' and grp == 'Bytes' and \
-                match(a, Call('Iterator::map', Call('CharString::get_char_byte_lengths', ANY), ('fn', Pred(lambda n: n.endswith('TokenGroup::Full'))))):
-            kind = 'bytes'
-        elif name == 'push' and arm == 'Regular' and grp == 'CodePoints' and a is not None and a[0] == 'agg' and a[2].endswith('TokenGroup::Nested'):
-            kind = 'code-points'
-        elif name == 'append' and arm is None and match(a, Call('from_elem', _full(Const(1)), Call('num_suffix_tokens', ('arg', 1, ANY)))):
-            kind = 'suffix'
-        if kind is None:
-            ctx.fail(b, 'unpaired-group-writer|' + name, 'groups.%s(%s) at line %d is not one of the paired writers (a shortcut that emits groups '
-                     'without segmenting the text into Characters breaks "one group per character")' % (name, show_in(b, a)[:80] if a else '', t.span['line']), t.span)
-            continue
-        seen.setdefault(kind, []).append(t)
+    shape = len(gs) == 3 and gs[1].kind == 'nest' and not gs[1].conds and match(core(gs[1].src), Call('split_input', ('arg', 1, ANY), ('arg', 2, ANY), ('arg', 3, ANY)))
+    ctx.require(shape, b, 'group-shape', 'groups = prefix run, then per input piece, then suffix run', 'groups are built as %s' % [repr(x)[:160] for x in gs])
+    if shape:
+        pre, mid, suf = gs
+        ctx.require(pre.kind == 'repeat' and not pre.conds and isfull1(pre.elem) and match(core(pre.count), Call('num_prefix_tokens', ('arg', 1, ANY))), b, 'prefix-groups',
+                    'groups starts as Full(1) x num_prefix_tokens()', 'groups starts as %r' % pre)
+        if suf.kind == 'repeat' and not suf.conds and isfull1(suf.elem) and match(core(suf.count), Call('num_suffix_tokens', ('arg', 1, ANY))):
+            seen.setdefault('suffix', []).append(suf)
+        else:
+            ctx.fail(b, 'unpaired-group-writer|suffix', 'groups end with `%r` instead of Full(1) x num_suffix_tokens()' % suf, where(suf))
+        for s_ in mid.inner:
+            arm, grp, other = arms(s_)
+            kind = None
+            if s_.kind == 'one' and arm == 'Special' and grp is None and not other and isfull1(s_.elem):
+                kind = 'special'
+            elif s_.kind == 'each' and arm == 'Regular' and grp == 'Bytes' and not other and \
+                    match(core(s_.src), Call('CharString::get_char_byte_lengths', csnew(item_of('Regular')))) and match(core(s_.elem), _full(('item', 1))):
+                kind = 'bytes'
+            elif s_.kind == 'each' and arm == 'Regular' and grp == 'CodePoints' and not other and match(core(s_.src), Call('CharString::chars', csnew(item_of('Regular')))):
+                kind = 'code-points'
+                e = core(s_.elem)
+                ok = e[0] == 'agg' and e[2].endswith('TokenGroup::Nested')
+                if ok:
+                    inner = seq_of(ctx.facts, b, e[3][0])
+                    ok = inner is not None and len(inner) == 1 and inner[0].kind == 'each' and not inner[0].conds and \
+                        match(core(inner[0].src), Call('code_points', ('item', 1))) and match(core(inner[0].elem), _full(Call('len_utf8', ITEM)))
+                ctx.require(ok, b, 'nested-inner', 'nested groups = Full(len_utf8) per code point of the Character', 'nested group: %r' % s_, where(s_))
+            if kind is None:
+                ctx.fail(b, 'unpaired-group-writer|' + s_.kind, 'groups also receive `%s` (line %d), which is not one of the paired writers (a shortcut that emits groups '
+                         'without segmenting the text into Characters breaks "one group per character")' % (repr(s_)[:120], where(s_)['line'] if where(s_) else 0), where(s_))
+                continue
+            seen.setdefault(kind, []).append(s_)
     for k in ('special', 'bytes', 'code-points', 'suffix'):
         ctx.require(len(seen.get(k, [])) == 1, b, 'group-writer|' + k, 'exactly one `%s` group writer' % k, 'found %d `%s` group writers' % (len(seen.get(k, [])), k))
-    gi = [core(v) for site, v in local_defs(b, R['groups'])]
-    ctx.require(len(gi) == 1 and match(gi[0], Call('from_elem', _full(Const(1)), Call('num_prefix_tokens', ('arg', 1, ANY)))), b, 'prefix-groups',
-                'groups starts as Full(1) x num_prefix_tokens()', 'groups starts as %s' % [show_in(b, x) for x in gi])
-    # token writers
+    # ---- ids
     seen_t = {}
-    for t in tw:
-        name = (t.callee_res() or '').rsplit('::', 1)[-1]
-        a = core(sym(b, t.args[1])) if len(t.args) > 1 else None
-        arm = arm_of(t.bb)
+    shape = len(ts) == 1 and ts[0].kind == 'nest' and not ts[0].conds and match(core(ts[0].src), Call('split_input', ('arg', 1, ANY), ('arg', 2, ANY), ('arg', 3, ANY)))
+    ctx.require(shape, b, 'id-shape', 'ids are appended per input piece only', 'ids are built as %s' % [repr(x)[:160] for x in ts])
+    for s_ in (ts[0].inner if shape else ()):
+        arm, grp, other = arms(s_)
         kind = None
-        if name == 'push' and arm == 'Special' and has(a, Call('Vocab::token_to_id', ANY, ANY)):
+        if s_.kind == 'one' and arm == 'Special' and grp is None and not other and has(s_.elem, Call('Vocab::token_to_id', ('field', ('arg', 1, ANY), 'special_vocab'), item_of('Special'))):
             kind = 'special'
-        elif name == 'extend' and arm == 'Regular' and match(a, Call('Iterator::map', Call('as_bytes', ANY), ANY)) or \
-                (name == 'extend' and arm == 'Regular' and a is not None and a[0] == 'call' and a[1].endswith('Iterator::map')):
+        elif s_.kind == 'each' and arm == 'Regular' and grp is None and not other and match(core(s_.src), item_of('Regular')):
             kind = 'bytes'
-            clo = closure_of(ctx, sym(b, t.args[1])[2][1])
-            crv = ret_values(clo)
-            ctx.require(len(crv) == 1 and match(core(crv[0][0]), ('arg', 2, ANY)), clo, 'byte-ids', 'each byte becomes the id with its value', None)
+            ctx.require(core(s_.elem) == ('item', 1), b, 'byte-ids', 'each byte becomes the id with its value', 'a byte b becomes the id %r' % s_, where(s_))
         if kind is None:
-            ctx.fail(b, 'unpaired-token-writer|' + name, 'tokens.%s(..) at line %d is not one of the paired writers' % (name, t.span['line']), t.span)
+            ctx.fail(b, 'unpaired-token-writer|' + s_.kind, 'ids also receive `%s` (line %d), which is not one of the paired writers' % (
+                repr(s_)[:120], where(s_)['line'] if where(s_) else 0), where(s_))
             continue
-        seen_t.setdefault(kind, []).append(t)
+        seen_t.setdefault(kind, []).append(s_)
     for k in ('special', 'bytes'):
         ctx.require(len(seen_t.get(k, [])) == 1, b, 'token-writer|' + k, 'exactly one `%s` id writer' % k, 'found %d' % len(seen_t.get(k, [])))
-    # the regular arm: same text for bytes and for the segmentation; segmentation with the configured grapheme flag
-    if seen_t.get('bytes') and seen.get('bytes'):
-        tb = core(sym(b, seen_t['bytes'][0].args[1]))
-        txt = tb[2][0] if tb[0] == 'call' else None   # str (identity-peeled as_bytes)
-        cs = [t for t in b.calls(r'CharString::new$')]
-        ok = len(cs) == 1 and txt is not None and nosite(core(sym(b, cs[0].args[0]))) == nosite(core(txt)) and \
-            match(core(sym(b, cs[0].args[1])), ('field', ('field', ('arg', 1, ANY), 'config'), 'use_graphemes'))
-        ctx.require(ok, b, 'same-text', 'ids and groups of a regular segment come from the same text, segmented with config.use_graphemes', None)
-        # special: push id and push group on the same paths
-        sp_t, sp_g = seen_t.get('special', [None])[0], seen.get('special', [None])[0]
-        if sp_t and sp_g:
-            ctx.require(cfg.dominates(b, sp_t.bb, sp_g.bb) or cfg.dominates(b, sp_g.bb, sp_t.bb), b, 'special-paired', 'a special token adds one id and one group together', None)
-        # nested code point groups: one Nested per Character, inner = Full(len_utf8) per code point
-        cp = seen.get('code-points')
-        if cp:
-            lp = cfg.innermost_loop(b, cp[0].bb)
-            nx = [c for c in b.calls(r'::next$') if lp and c.bb in lp.blocks and c.bb != b.blocks[0].idx]
-            inner = [c for c in nx if has(core(loop_source(b, c)), Call('CharString::chars', ANY))]
-            ctx.require(len(inner) == 1, b, 'nested-per-char', 'one Nested group per Character of the segment', None)
-            a = core(sym(b, cp[0].args[1]))
-            v = core(init_value(b, a[3][0])) if a[0] == 'agg' else ()
-            ok = match(v, Call('Iterator::collect', Call('Iterator::map', Call('code_points', ANY), ANY)))
-            if ok:
-                clo = closure_of(ctx, v[2][0][2][1])
-                crv = ret_values(clo)
-                ok = len(crv) == 1 and match(core(crv[0][0]), _full(Call('len_utf8', ('arg', 2, ANY))))
-            ctx.require(ok, b, 'nested-inner', 'nested groups = Full(len_utf8) per code point', None)
+    sp_t, sp_g = seen_t.get('special', [None])[0], seen.get('special', [None])[0]
+    if sp_t is not None and sp_g is not None and sp_t.term is not None and sp_g.term is not None:
+        ctx.require(cfg.dominates(b, sp_t.term.bb, sp_g.term.bb) or cfg.dominates(b, sp_g.term.bb, sp_t.term.bb), b, 'special-paired',
+                    'a special token adds one id and one group together', None)
     sub = ctx.body('unicode::CharString::get_char_byte_lengths') if [x for x in ctx.facts.bodies if norm_path(x.path) == 'unicode::CharString::get_char_byte_lengths'] else None
     # framing counts use the same accessors as add_prefix_and_suffix
     npre = ctx.bodies(r'BaseTokenize::num_prefix_tokens$')
